@@ -18,6 +18,7 @@ func verifAssume(c bool)
 func verifAssert(label string, c bool)
 func verifCover(label string)
 func verifTry(f func()) bool
+func verifMemo(key string, f func() interface{}) interface{}
 func verifAnd(a, b bool) bool
 func verifOr(a, b bool) bool
 func verifNot(a bool) bool
@@ -136,6 +137,8 @@ func verifAssert(label string, c bool) {
 	}
 }
 func verifCover(label string) { verifCovers = append(verifCovers, label) }
+func verifMemo(key string, f func() interface{}) interface{} { return f() }
+
 func verifTry(f func()) (p bool) {
 	defer func() {
 		if r := recover(); r != nil {
